@@ -17,6 +17,7 @@ Clause → theorem (property text of C20 in /verif/properties.jsonl)
 | login succeeds exactly for a configured user with the matching password whose role permits login | `login_iff`, `login_identity` (full strength), `login_denied_iff`, `login_trichotomy` |
 | every other credential – unknown user, wrong password                         | `login_unknown_user`, `login_wrong_password`, `junk_hash_never_logs_in` (an entry whose stored `password_hash` is not the hex text of a hash – locked `"!"`, empty, truncated, one character too long, upper-case hex, non-hex – admits **no** password) |
 | the admin token *verbatim*; what "the bearer token of a request" is            | `get_bearer_token_spec` (header parsing of httpclient.rs), `near_miss_same_iff` (of the neighbourhood of a credential – prefixes, extensions, one changed character, other case, white space around it, nothing – exactly the members that only add white space are the same credential), `near_miss_admin_token`, `near_miss_rejected` |
+| "the role configured for that user" / "that role": which role map                | `role_map_is_configured` (the `[auth_roles]` of the file if present, else the built-in roles – never a union), `identity_role_is_configured`, `login_role_is_configured`, `undefined_role_never_logs_in`, `start_refused_iff` (which configurations the daemon accepts at all) |
 | both provider configurations                                                   | `authenticates_iff` (config-file provider primary, admin token as the legacy arm), `authenticates_iff_admin_token` (admin-token provider primary), `genuine_iff` |
 | … truncated, bit-flipped or re-encoded token, token issued under another instance's key – authenticates nobody | `mutated_token_rejected`, `mutations_rejected`, `not_issued_rejected`, `cache_key_is_whole_token`, `injective_key_sound` / `noninjective_key_unsound` (a cache keyed by less than the whole token) |
 | … and is refused on every route that requires a permission                    | `refused_everywhere`, `mutated_token_refused_everywhere`, `request_decision` |
@@ -33,6 +34,7 @@ Session lifetime (not demanded by the property text; stated as the code is):
 import KrillModel.Http.AuthLemmas
 import KrillModel.Http.BearerLemmas
 import KrillModel.Http.AuthPinned
+import KrillModel.Http.ConfigModel
 import KrillModel.Http.Lemmas
 import KrillModel.Props.C13
 namespace KM.Props.C20
@@ -833,6 +835,127 @@ theorem near_miss_rejected (cfg : Config) (st : SessState) (hs : CacheSound cfg.
       exact (not_genuine_as_absent cfg st hs _ hng tr).1
     · rw [hiff.mpr h]; simp only [String.ofList_toList]
 
+/-! ## From the configuration file to the identities: which role map -/
+
+/-- The role map every provider reads is the `[auth_roles]` section of the configuration file if
+there is one, and the built-in roles (`ConfigDefaults::auth_roles()`) otherwise – **not a union**:
+with an own `[auth_roles]` a built-in name that the section does not define is not a role. -/
+theorem role_map_is_configured (cf : ConfigFile) :
+    (∀ m, cf.authRoles = some m → cf.roleMap = m) ∧
+    (cf.authRoles = none → cf.roleMap = builtinRoleMap) ∧
+    cf.effective.roles = cf.roleMap ∧
+    (∀ m n, cf.authRoles = some m → m.lookup n = none → cf.effective.roles.lookup n = none) := by
+  refine ⟨?_, ?_, rfl, ?_⟩
+  · intro m h; simp [ConfigFile.roleMap, h]
+  · intro h; simp [ConfigFile.roleMap, h]
+  · intro m n h hn
+    show cf.roleMap.lookup n = none
+    simp [ConfigFile.roleMap, h, hn]
+
+/-- **Which configurations the daemon accepts** (as far as authentication is concerned:
+`Authorizer::new`): it refuses to start iff the config-file provider is selected without an
+`[auth_users]` section, or some entry of `unix_users` (the default `root = "admin"` when the file has
+none) names a role that is not in the role map. -/
+theorem start_refused_iff (cf : ConfigFile) :
+    startOk cf = false ↔
+      (cf.authType = .configFile ∧ cf.authUsers = none) ∨
+      ∃ u rn, (u, rn) ∈ cf.unixMap ∧ cf.roleMap.lookup rn = none := by
+  unfold startOk configFileProviderStarts unixProviderStarts
+  rw [Bool.and_eq_false_iff]
+  constructor
+  · intro h
+    rcases h with h | h
+    · left
+      cases hty : cf.authType with
+      | adminToken => simp [hty] at h
+      | configFile =>
+        simp only [hty, Option.isSome_eq_false_iff, Option.isNone_iff_eq_none] at h
+        exact ⟨rfl, h⟩
+    · right
+      rw [List.all_eq_false] at h
+      obtain ⟨e, he, hl⟩ := h
+      refine ⟨e.1, e.2, he, ?_⟩
+      cases hlk : cf.roleMap.lookup e.2 with
+      | none => rfl
+      | some r => simp [hlk] at hl
+  · intro h
+    rcases h with ⟨hty, hu⟩ | ⟨u, rn, hm, hl⟩
+    · left; simp [hty, hu]
+    · right
+      rw [List.all_eq_false]
+      exact ⟨(u, rn), hm, by simp [hl]⟩
+
+/-- **The role of an authenticated identity is a role of the configuration.**  For every
+configuration file, every state, header and transport: whoever a request authenticates as, its role is
+either the admin role of the admin-token identity (the request carries the admin token verbatim), or
+`roles.get(name)` of *the configured* role map for some name – in particular, with an own
+`[auth_roles]` section it is an entry of that section, never a built-in role the configuration does
+not define. -/
+theorem identity_role_is_configured (cf : ConfigFile) (st : SessState) (hs : CacheSound cf.key st)
+    (h : Header) (t : Transport) (id : String) (role : Role)
+    (ha : (authenticate cf.effective st h t).1 = .ok id role) :
+    (h = .bearer (.text cf.adminToken) ∧ id = adminTokenUser ∧ role = adminRole) ∨
+    ∃ rn, cf.roleMap.lookup rn = some role ∧ ∀ m, cf.authRoles = some m → (rn, role) ∈ m := by
+  have conf : ∀ rn, cf.effective.roles.lookup rn = some role →
+      ∃ rn, cf.roleMap.lookup rn = some role ∧ ∀ m, cf.authRoles = some m → (rn, role) ∈ m := by
+    intro rn hl
+    refine ⟨rn, hl, ?_⟩
+    intro m hm
+    have : cf.roleMap = m := (role_map_is_configured cf).1 m hm
+    rw [← this]
+    exact lookup_mem _ _ _ hl
+  have peer : PeerAccepts cf.effective t id role →
+      ∃ rn, cf.roleMap.lookup rn = some role ∧ ∀ m, cf.authRoles = some m → (rn, role) ∈ m := by
+    intro ⟨_, rn, _, _, hr, _⟩
+    exact conf rn hr
+  cases hty : cf.authType with
+  | configFile =>
+    have hcf : cf.effective.authType = .configFile := hty
+    rcases (authenticates_iff cf.effective hcf st hs h t id role).mp ha with
+      ⟨w, hw, hacc⟩ | ⟨_, hp⟩
+    · rcases hacc with ⟨h1, h2, h3⟩ | ⟨_, n, u, r, _, _, hr⟩
+      · left; exact ⟨by rw [hw, h1]; rfl, h2, h3⟩
+      · right; exact conf r hr
+    · right; exact peer hp
+  | adminToken =>
+    have hat : cf.effective.authType = .adminToken := hty
+    rcases (authenticates_iff_admin_token cf.effective hat st h t id role).mp ha with
+      ⟨h1, h2, h3⟩ | ⟨_, hp⟩
+    · left; exact ⟨h1, h2, h3⟩
+    · right; exact peer hp
+
+/-- … and so is the role a login hands out: the role name of the user's own entry, which the
+configured role map defines. -/
+theorem login_role_is_configured (norm : String → String) (cf : ConfigFile) (st : SessState)
+    (basic : Option (String × String)) (id rn : String) (tok : Wire)
+    (h : (loginConfigFile norm cf.effective st basic).1 = .ok id rn tok) :
+    ∃ e role, (cf.authUsers.getD []).lookup id = some e ∧ e.role = rn ∧
+      cf.roleMap.lookup rn = some role ∧ role.isAllowed .Login none = true ∧
+      ∀ m, cf.authRoles = some m → (rn, role) ∈ m := by
+  obtain ⟨raw, pw, u, r, _, _, hu, _, hrole, hr, hal, _⟩ :=
+    (login_iff norm cf.effective st basic id rn tok).mp h
+  subst hrole
+  refine ⟨u, r, hu, rfl, hr, hal, ?_⟩
+  intro m hm
+  have : cf.roleMap = m := (role_map_is_configured cf).1 m hm
+  rw [← this]
+  exact lookup_mem _ _ _ hr
+
+/-- A configured user whose role name the role map does not define cannot log in, whatever the
+password (401, nothing changes) – e.g. an entry with `role = "admin"` under an own `[auth_roles]`
+section without a role of that name. -/
+theorem undefined_role_never_logs_in (norm : String → String) (cf : ConfigFile) (st : SessState)
+    (raw pw : String) (u : UserEntry) (hu : (cf.authUsers.getD []).lookup (norm raw) = some u)
+    (hr : cf.roleMap.lookup u.role = none) :
+    loginConfigFile norm cf.effective st (some (raw, pw)) = (.invalid, st) := by
+  have hu' : cf.effective.users.lookup (norm raw) = some u := hu
+  have hr' : cf.effective.roles.lookup u.role = none := hr
+  unfold loginConfigFile
+  simp only [hu']
+  split
+  · rfl
+  · simp only [hr']
+
 /-! ## `request_decision`: credentials to decision -/
 
 /-- **End to end.**  For every configuration (arbitrary users, arbitrary role definitions, arbitrary
@@ -994,5 +1117,33 @@ example :
     by decide, by decide, by decide, by decide, by decide, by decide, by decide, by decide, ?_,
     by decide, by decide⟩
   refine ⟨by decide, ?_, ?_, by decide⟩ <;> intro c hc <;> simp at hc <;> subst hc <;> decide
+
+/-- Configuration files: (a) without `[auth_roles]` and `[unix_users]` the daemon starts, `root` on
+the socket is the built-in admin; (b) an own section that shadows `readonly` with fewer permissions:
+the user of that role gets the *configured* one; (c) an own section without `admin`: with the
+default `unix_users` (`root = "admin"`) the daemon refuses to start; with `unix_users` overridden it
+starts, and the left-over user with `role = "admin"` cannot log in – and there is no role `admin`. -/
+example :
+    let thin : Role := Role.simple [.Login, .CaList]
+    let users := [("ro", (⟨.term ⟨"pw", "ro", 1⟩, 1, "readonly"⟩ : UserEntry)),
+                  ("old", ⟨.term ⟨"pw", "old", 2⟩, 2, "admin"⟩)]
+    let a : ConfigFile := ⟨.configFile, "secret", some users, none, none, 7, false⟩
+    let b : ConfigFile := { a with authRoles := some [("readonly", thin), ("operator", exRole)],
+                                   unixUsers := some [("root", "operator")] }
+    let c : ConfigFile := { a with authRoles := some [("operator", exRole), ("readonly", thin)] }
+    let c' : ConfigFile := { c with unixUsers := some [] }
+    startOk a = true ∧
+    (authenticate a.effective {} .absent (.unix "root")).1 = .ok "root" Role.admin ∧
+    (loginConfigFile id a.effective {} (some ("old", "pw"))).1 =
+      .ok "old" "admin" (.sealed true 7 0 (.session "old" "admin")) ∧
+    startOk b = true ∧
+    (authenticate b.effective {} (.bearer (.sealed true 7 0 (.session "ro" "readonly"))) .tcp).1 =
+      .ok "ro" thin ∧
+    startOk c = false ∧ startOk c' = true ∧
+    (loginConfigFile id c'.effective {} (some ("old", "pw"))).1 = .invalid ∧
+    c'.effective.roles.lookup "admin" = none ∧
+    startOk { a with authUsers := none } = false ∧
+    startOk { a with authUsers := none, authType := .adminToken } = true := by
+  decide
 
 end KM.Props.C20
